@@ -1,7 +1,7 @@
 //! Kani harnesses for the shared (Arc) flavour in src/sync/semaphore.rs; hooked inside `mod if_alloc`.
 //! GROUP: semaphore_shared
 //! MODULE: sync::semaphore::if_alloc::kani_verif_shared
-//! TAGS: C01 C05 C06 C17 C18
+//! TAGS: C01 C05 C06 C07 C17 C18
 //! N: quick=4 thorough=4
 //! UNWIND_EXTRA: 3
 //! KIND: harness (concrete queue shape and fairness, symbolic permits / request sizes / remaining state)
@@ -66,11 +66,15 @@ fn check_shared_poll(fair: bool, st: [u8; N], queue: &[usize]) {
         core::task::Poll::Ready(rel) => {
             assert!(w.sh.permits >= w.sh.req[i] && now == w.sh.permits - w.sh.req[i], "[C05] an acquisition completes only when n permits are free and takes exactly n");
             assert!(rel.permits == w.sh.req[i], "[C05] the releaser returns exactly the acquired amount");
+            if fair && w.sh.req[i] > 0 {
+                assert!(w.sh.nq == 0 || w.sh.order[w.sh.nq - 1] == i, "[C07] fair: only the longest-waiting request may complete (shared future)");
+            }
         }
         core::task::Poll::Pending => {
             assert!(now == w.sh.permits, "[C05] a pending poll takes no permits");
             let t = w.futs[i].wait_node.task.as_ref();
             assert!(t.is_some() && t.unwrap().will_wake(&wk), "[C06] a pending future is registered with the waker of its latest poll");
+            assert!(w.sh.req[i] > 0, "[C07] a request for zero permits completes immediately (shared future)");
         }
     }
     assert!(wake_rule(&w.sh, &w.futs, i), "[C06] every request that is notified is woken exactly once through its latest waker; nobody else is woken");
@@ -118,6 +122,44 @@ fn fresh_shared_future_is_not_terminated() {
     assert!(!sf.is_terminated(), "[C17] is_terminated() is false from creation");
     assert!(sf.wait_node.state == PollState::New && sf.wait_node.task.is_none() && sf.wait_node.required_permits == n && sf.auto_release, "[C05] [C06] a new shared acquire future asks for exactly n permits, releases them automatically, and has not started waiting");
     assert!(ssem.permits() == p0, "[C05] creating a future takes no permits");
+}
+
+/// release() through the shared handle is the state machine's release: exact permit arithmetic, notified requests really woken,
+/// and the C06 outcome (a wrapper that bypasses or doubles the state machine's release is refuted)
+fn check_shared_release(fair: bool, st: [u8; N], queue: &[usize]) {
+    let mut w = sworld(fair, st, queue);
+    unsafe { slink(&mut w) };
+    let n: usize = kani::any();
+    kani::assume(n < 8);
+    let served_before = head_served(&w.futs, &w.sem.state.lock(), N);
+    w.sem.release(n);
+    assert!(w.sem.permits() == w.sh.permits + n, "[C05] release(n) through the shared handle adds exactly n permits");
+    assert!(wake_rule(&w.sh, &w.futs, N), "[C06] every request notified by a release is woken exactly once through its latest waker; nobody else is woken");
+    assert!(!served_before || head_served(&w.futs, &w.sem.state.lock(), N), "[C06] after release() through the shared handle the longest-waiting request is not stranded: it holds a wake-up or does not fit");
+    assert!(queue_ok(fair, &w.futs, &w.sem.state.lock()), "[C01] queue consistent after release");
+}
+
+/// try_acquire() through the shared handle is the state machine's try_acquire_sync
+fn check_shared_try_acquire(fair: bool, st: [u8; N], queue: &[usize]) {
+    let mut w = sworld(fair, st, queue);
+    unsafe { slink(&mut w) };
+    let n: usize = kani::any();
+    kani::assume(n < 8);
+    let g = w.sem.try_acquire(n);
+    match &g {
+        Some(rel) => {
+            assert!(w.sh.permits >= n && w.sem.permits() == w.sh.permits - n, "[C05] try_acquire(n) takes exactly n, only when n are free");
+            assert!(rel.permits == n, "[C05] the releaser returns exactly the acquired amount");
+            assert!(!fair || n == 0 || w.sh.nq == 0, "[C07] fair: try_acquire(n>0) succeeds only with nobody queued");
+        }
+        None => {
+            assert!(w.sem.permits() == w.sh.permits, "[C05] a failed try_acquire takes nothing");
+            assert!(n > 0, "[C07] a request for zero permits always succeeds");
+            assert!(w.sh.permits < n || (fair && w.sh.nq > 0), "[C05] [C07] try_acquire fails only when the permits are missing or (fair) somebody is queued");
+        }
+    }
+    assert!(kit::total_wakes() == 0, "[C06] try_acquire wakes nobody");
+    core::mem::forget(g);
 }
 
 macro_rules! inst_t {
@@ -215,3 +257,45 @@ inst_t!(shared_releaser_unfair_s13_q0, check_shared_releaser(false, [1, 3], &[0]
 inst_t!(shared_releaser_unfair_s22_q, check_shared_releaser(false, [2, 2], &[]));
 inst_t!(shared_releaser_unfair_s23_q, check_shared_releaser(false, [2, 3], &[]));
 inst_t!(shared_releaser_unfair_s33_q, check_shared_releaser(false, [3, 3], &[]));
+inst!(shared_release_fair_s00_q, check_shared_release(true, [0, 0], &[]));
+inst!(shared_release_fair_s01_q1, check_shared_release(true, [0, 1], &[1]));
+inst!(shared_release_fair_s02_q1, check_shared_release(true, [0, 2], &[1]));
+inst!(shared_release_fair_s03_q, check_shared_release(true, [0, 3], &[]));
+inst!(shared_release_fair_s11_q01, check_shared_release(true, [1, 1], &[0, 1]));
+inst!(shared_release_fair_s11_q10, check_shared_release(true, [1, 1], &[1, 0]));
+inst!(shared_release_fair_s12_q01, check_shared_release(true, [1, 2], &[0, 1]));
+inst!(shared_release_fair_s13_q0, check_shared_release(true, [1, 3], &[0]));
+inst!(shared_release_fair_s23_q0, check_shared_release(true, [2, 3], &[0]));
+inst!(shared_release_fair_s33_q, check_shared_release(true, [3, 3], &[]));
+inst!(shared_release_unfair_s00_q, check_shared_release(false, [0, 0], &[]));
+inst!(shared_release_unfair_s01_q1, check_shared_release(false, [0, 1], &[1]));
+inst!(shared_release_unfair_s02_q, check_shared_release(false, [0, 2], &[]));
+inst!(shared_release_unfair_s03_q, check_shared_release(false, [0, 3], &[]));
+inst!(shared_release_unfair_s11_q01, check_shared_release(false, [1, 1], &[0, 1]));
+inst!(shared_release_unfair_s11_q10, check_shared_release(false, [1, 1], &[1, 0]));
+inst!(shared_release_unfair_s12_q0, check_shared_release(false, [1, 2], &[0]));
+inst!(shared_release_unfair_s13_q0, check_shared_release(false, [1, 3], &[0]));
+inst!(shared_release_unfair_s22_q, check_shared_release(false, [2, 2], &[]));
+inst!(shared_release_unfair_s23_q, check_shared_release(false, [2, 3], &[]));
+inst!(shared_release_unfair_s33_q, check_shared_release(false, [3, 3], &[]));
+inst!(shared_try_acquire_fair_s00_q, check_shared_try_acquire(true, [0, 0], &[]));
+inst!(shared_try_acquire_fair_s01_q1, check_shared_try_acquire(true, [0, 1], &[1]));
+inst!(shared_try_acquire_fair_s02_q1, check_shared_try_acquire(true, [0, 2], &[1]));
+inst!(shared_try_acquire_fair_s03_q, check_shared_try_acquire(true, [0, 3], &[]));
+inst!(shared_try_acquire_fair_s11_q01, check_shared_try_acquire(true, [1, 1], &[0, 1]));
+inst!(shared_try_acquire_fair_s11_q10, check_shared_try_acquire(true, [1, 1], &[1, 0]));
+inst!(shared_try_acquire_fair_s12_q01, check_shared_try_acquire(true, [1, 2], &[0, 1]));
+inst!(shared_try_acquire_fair_s13_q0, check_shared_try_acquire(true, [1, 3], &[0]));
+inst!(shared_try_acquire_fair_s23_q0, check_shared_try_acquire(true, [2, 3], &[0]));
+inst!(shared_try_acquire_fair_s33_q, check_shared_try_acquire(true, [3, 3], &[]));
+inst!(shared_try_acquire_unfair_s00_q, check_shared_try_acquire(false, [0, 0], &[]));
+inst!(shared_try_acquire_unfair_s01_q1, check_shared_try_acquire(false, [0, 1], &[1]));
+inst!(shared_try_acquire_unfair_s02_q, check_shared_try_acquire(false, [0, 2], &[]));
+inst!(shared_try_acquire_unfair_s03_q, check_shared_try_acquire(false, [0, 3], &[]));
+inst!(shared_try_acquire_unfair_s11_q01, check_shared_try_acquire(false, [1, 1], &[0, 1]));
+inst!(shared_try_acquire_unfair_s11_q10, check_shared_try_acquire(false, [1, 1], &[1, 0]));
+inst!(shared_try_acquire_unfair_s12_q0, check_shared_try_acquire(false, [1, 2], &[0]));
+inst!(shared_try_acquire_unfair_s13_q0, check_shared_try_acquire(false, [1, 3], &[0]));
+inst!(shared_try_acquire_unfair_s22_q, check_shared_try_acquire(false, [2, 2], &[]));
+inst!(shared_try_acquire_unfair_s23_q, check_shared_try_acquire(false, [2, 3], &[]));
+inst!(shared_try_acquire_unfair_s33_q, check_shared_try_acquire(false, [3, 3], &[]));
